@@ -591,3 +591,78 @@ pub proof fn lemma_cores_prefix(c: Seq<Seq<u8>>, hs: Seq<Hunk<&[u8]>>, d: PatchD
     ensures cores_ordered(c.len() as int, hs, d, reps, j)
 {
 }
+
+// ---------------------------------------------------------------- C03's own share of the matching phase (normal mode)
+// C03 ("changes exactly the lines its hunks mark") needs from the matching phase only that every applied report is the
+// report of a real match whose changed region lies BEYOND the changed regions of the hunks applied before it.  It does
+// not need the frozen line to be exact (a larger one refuses more, which is C02's business), nor the choice of level or
+// of the nearest match.  The chain below therefore asks `frozen >= st_frozen`, never equality.
+
+/// a report that is sound for hunk h on file c beyond line `frozen`: it is the report of a real match there
+pub open spec fn sound_at(h: Hunk<&[u8]>, d: PatchDirection, c: Seq<Seq<u8>>, frozen: int, r: HunkApplyReport) -> bool {
+    r matches HunkApplyReport::Applied { line, fuzz, .. } ==> {
+        &&& matches_at(deep(v_old(h, d, fuzz as int)), c, line as int)
+        &&& line + v_pc(h, fuzz as int) > frozen
+        &&& r == applied_report(h, d, fuzz as int, line as int)
+    }
+}
+
+/// invariant of the matching phase after i hunks, C03's share: report shapes and order of the changed regions
+#[verifier::opaque]
+pub open spec fn order_inv(hs: Seq<Hunk<&[u8]>>, d: PatchDirection, c: Seq<Seq<u8>>, reports: Seq<HunkApplyReport>, i: int) -> bool {
+    &&& reports.len() == i
+    &&& forall|j: int| 0 <= j < i ==> #[trigger] reports[j] == norm(reports[j])
+    &&& cores_ordered(c.len() as int, hs, d, reports, i)
+    &&& reports_shape(hs, d, reports, i)
+}
+
+pub proof fn lemma_order_init(hs: Seq<Hunk<&[u8]>>, d: PatchDirection, c: Seq<Seq<u8>>)
+    ensures order_inv(hs, d, c, Seq::<HunkApplyReport>::empty(), 0)
+{
+    reveal(order_inv);
+}
+
+pub proof fn lemma_order_step(hs: Seq<Hunk<&[u8]>>, d: PatchDirection, c: Seq<Seq<u8>>, reports: Seq<HunkApplyReport>, i: int,
+                              r: HunkApplyReport, frozen: int)
+    requires
+        order_inv(hs, d, c, reports, i),
+        0 <= i < hs.len(), hunks_wf(hs), c.len() < BIG(),
+        r == norm(r),
+        sound_at(hs[i], d, c, frozen, r),
+        frozen >= st_frozen(hs, d, reports, i),
+    ensures
+        order_inv(hs, d, c, reports.push(r), i + 1),
+        st_frozen(hs, d, reports.push(r), i + 1) == (if r is Applied { rep_core_end(hs[i], d, r) } else { st_frozen(hs, d, reports, i) }),
+        r is Applied ==> st_frozen(hs, d, reports, i) < rep_core_end(hs[i], d, r) <= c.len(),
+        any_failed_spec(reports.push(r), i + 1) == (any_failed_spec(reports, i) || r is Failed),
+{
+    reveal(order_inv);
+    let r2 = reports.push(r);
+    lemma_state_prefix(hs, d, reports, r2, i);
+    assert(hunk_wf(hs[i]));
+    assert forall|j: int| 0 <= j < i + 1 implies #[trigger] r2[j] == norm(r2[j]) by {
+        if j < i { assert(r2[j] == reports[j]); }
+    }
+    assert forall|j: int| 0 <= j < i + 1 && (#[trigger] r2[j]) is Applied implies
+        norm(r2[j]) == applied_report(hs[j], d, r2[j]->fuzz as int, r2[j]->line as int) && -BIG() < r2[j]->line < BIG() by {
+        if j < i { assert(r2[j] == reports[j]); }
+    }
+    assert forall|j: int| 0 <= j < i + 1 && (#[trigger] r2[j]) is Applied implies {
+        &&& sp_pos(hs, d, r2, j) <= rep_core_start(hs[j], r2[j])
+        &&& rep_core_start(hs[j], r2[j]) <= rep_core_end(hs[j], d, r2[j])
+        &&& rep_core_end(hs[j], d, r2[j]) <= c.len() } by {
+        lemma_state_prefix(hs, d, reports, r2, j);
+        if j < i { assert(r2[j] == reports[j]); }
+    }
+}
+
+pub proof fn lemma_order_unfold(hs: Seq<Hunk<&[u8]>>, d: PatchDirection, c: Seq<Seq<u8>>, reps: Seq<HunkApplyReport>, n: int)
+    requires order_inv(hs, d, c, reps, n)
+    ensures
+        reps.len() == n,
+        forall|j: int| 0 <= j < n ==> #[trigger] reps[j] == norm(reps[j]),
+        cores_ordered(c.len() as int, hs, d, reps, n),
+        reports_shape(hs, d, reps, n),
+{
+    reveal(order_inv);
+}
